@@ -110,6 +110,7 @@ def fault(nmax, kinds, enc, blocked):
                                               'lens': [ev(rlen(g[2])) - 22 if g else None for g in goods],
                                               'goods': [msg_witness(g[0], g[1], ev) if g else None for g in goods], 't': ev(sym.get('t')) if 't' in sym else None,
                                               'L': ev(sym.get('L')) if 'L' in sym else None, 'cut': ev(sym.get('cut')) if 'cut' in sym else None}}
+        core.set_fallback(rp, 'C10/concretised')
         rd = m.IpmReader(RopeFile(data), encoding=enc, blocked=blocked)
         got = []
         err = None
@@ -170,6 +171,7 @@ def two_step(enc, blocked):
         if kind == 'truncated':
             data = sl(data, 0, stream - 3)        # all records fit the first block: file offset == stream offset; the last record loses 3 bytes
         rp = {'kind': 'twostep', 'args': {'pre': pre, 'k': k, 'fault': kind, 'enc': enc, 'blocked': blocked}}
+        core.set_fallback(rp, 'C10/concretised')
         rd = m.IpmReader(RopeFile(data), encoding=enc, blocked=blocked)
         err = None
         with guard('IpmReader', 'C10/exception', rp, allow=(m.MciIpmDataError,)):
@@ -213,6 +215,7 @@ def two_faults(enc, blocked):
                 w.write(iso.dumps(dict(msg), encoding=enc))
         w.close()
         rp = {'kind': 'twofaults', 'args': {'k1': k1, 'k2': k2, 'kind1': kind1, 'kind2': kind2, 'enc': enc, 'blocked': blocked}}
+        core.set_fallback(rp, 'C10/concretised')
         rd = m.IpmReader(RopeFile(f.getvalue()), encoding=enc, blocked=blocked)
         errors = []
         delivered = 0
